@@ -756,6 +756,40 @@ def add_store_batch(col, rng, inputs_list, tmpdir, k):
             continue
         store2[key] = s
         col.add('getitem.set', f'getitem {enc_spec(inp)} {enc_text(s)}', classify_store(store2, key))
+    # ---- histories on the SAME store object: what a read returns is a function of the CURRENT specification and the
+    # CURRENT text only (the model op is stateless), whatever was read, set, deleted or re-specified before (seed
+    # C11g: a memo of parsed values that outlives `del`, a change of the configuration and `update_input_spec`)
+    for inp in inputs_list:
+        key = inp.name()
+        if key not in store2:
+            continue
+        classify_store(store2, key)                     # a read first, so that anything memoised is memoised
+        how = rng.randrange(4)
+        if how == 0:
+            del store2[key]
+            col.add('getitem.history', f'getitem {enc_spec(inp)} -', classify_store(store2, key))
+            continue
+        s = gen_string(rng, rng.choice(natural_kinds(inp)), inp)
+        if has_surrogate(s):
+            continue
+        if how == 1:
+            store2[key] = s
+            col.add('getitem.history', f'getitem {enc_spec(inp)} {enc_text(s)}', classify_store(store2, key))
+        elif how == 2:
+            store2.config.set(inp.section(), inp.base_name(), s)      # the caller's ConfigParser is the backing store
+            col.add('getitem.history', f'getitem {enc_spec(inp)} {enc_text(s)}', classify_store(store2, key))
+        else:
+            other = rng.choice(inputs_list)
+            cur = store2.config.get(inp.section(), inp.base_name())
+            specs2 = dict(by_key)
+            specs2[key] = other.__class__.__new__(other.__class__)
+            specs2[key].__dict__.update(other.__dict__)
+            specs2[key].__dict__.update({k2: v2 for k2, v2 in inp.__dict__.items() if k2 in ('_name', 'name', '_form', 'form')})
+            if specs2[key].name() != key or specs2[key].section() != inp.section() or specs2[key].base_name() != inp.base_name():
+                continue
+            store2.update_input_spec(specs2)
+            col.add('getitem.history', f'getitem {enc_spec(specs2[key])} {enc_text(cur)}', classify_store(store2, key))
+            store2.update_input_spec(by_key)
 
 
 def build(seed, n, thorough):
